@@ -56,6 +56,11 @@ type Stage struct {
 	// TimeoutIsViolation: the watchdog firing is a violation (deadlock
 	// checks); otherwise it is inconclusive.
 	TimeoutIsViolation bool
+	// DeadlockOnly refines TimeoutIsViolation: the watchdog firing is a
+	// violation only when the goroutine dump shows no running or runnable
+	// goroutine (every goroutine parked: a deadlock); a dump with a goroutine
+	// still at work is inconclusive (slow machine).
+	DeadlockOnly bool
 	// CrashSig, if set, computes the signature of a child crash from the
 	// excerpt of the child's log and the journalled last case (default: the
 	// first panic / fatal line of the log).
